@@ -15,6 +15,7 @@ import (
 	"github.com/btcsuite/btcd/chaincfg"
 	"github.com/elementsproject/peerswap/clightning"
 	"github.com/elementsproject/peerswap/lnd"
+	"github.com/elementsproject/peerswap/wallet"
 	"github.com/elementsproject/peerswap/log"
 	"github.com/elementsproject/peerswap/messages"
 	"github.com/elementsproject/peerswap/onchain"
@@ -379,7 +380,16 @@ func (n *Node) boot() {
 		}
 	}
 	if liquidOn {
-		n.LiquidOn = onchain.NewLiquidOnChain(n.LiquidWallet, &network.Regtest)
+		var lwal wallet.Wallet = n.LiquidWallet
+		if scn.RealLiquidWallet[n.ID] && scn.LiquidBackend[n.ID] != "lwk" {
+			rw, err := n.bootElementsWallet()
+			if err != nil {
+				fail("elements wallet", err)
+				return
+			}
+			lwal = rw
+		}
+		n.LiquidOn = onchain.NewLiquidOnChain(lwal, &network.Regtest)
 		liquidWallet = n.LiquidOn
 		liquidValidator = n.LiquidOn
 		lw, err := n.newLiquidWatcher(ctx)
